@@ -205,12 +205,26 @@ def job_single_reads(j):
     inv = r.inv
     if r.call(inv.read_device_info)[0] != 'ok':
         return 0, []
-    r.call(inv.read_runtime_data)
-    items = [('read_sensor', s.id_) for s in world.listed(inv)] + [('read_setting', s.id_) for s in inv.settings()]
-    for fn, sid in items:
+    for phase in ('before-the-first-poll', 'after-a-poll'):
+      if phase == 'after-a-poll':
+        r.call(inv.read_runtime_data)
+      items = [('read_sensor', s.id_) for s in world.listed(inv)] + [('read_setting', s.id_) for s in inv.settings()]
+      for fn, sid in items:
+        l0 = len(r.dev.log)
         with Probe() as p:
-            r.call(getattr(inv, fn), sid)
+            res1 = r.call(getattr(inv, fn), sid)
         n += 1
+        # the registers the request fetched contain the registers of a sensor / setting the object lists under this id
+        reqs = [q for q in r.dev.log[l0:] if q.get('fn') == 3]
+        cands = [s for s in (world.listed(inv) if fn == 'read_sensor' else inv.settings()) if s.id_ == sid and refdec.size_of(s)]
+        if res1[0] == 'ok' and reqs and cands and ('C14', f'reads-inside-answer/{cfg["family"]}/{sid}') not in _known():
+            lo, hi = reqs[-1]['reg'], reqs[-1]['reg'] + reqs[-1]['count'] - 1
+            if not any(lo <= s.offset and s.offset + (refdec.size_of(s) + 1) // 2 - 1 <= hi for s in cands):
+                key = f'sensor-inside-window/{cfg["family"]}/{fn}/{sid}'
+                out.setdefault(key, []).append(dict(key=key, clause='sensor-inside-window', replay=dict(cfg=cfg, transport='udp', singles=True),
+                                                    detail=dict(cause=f'{fn}({sid!r}) {phase}: fetched registers {lo}..{hi}, the listed '
+                                                                      f'{"sensor" if fn == "read_sensor" else "setting"} occupies '
+                                                                      f'{[(s.offset, (refdec.size_of(s) + 1) // 2) for s in cands]}')))
         for _, pos, size, got, win in p.short:
             if ('C14', f'reads-inside-answer/{cfg["family"]}/{sid}') in _known():
                 continue
@@ -311,7 +325,7 @@ def run(tier, seed, rep):
         nbusy += n
         rep.add_many(res)
     nsingle = 0
-    for n, res in pmap(job_single_reads, [(c,) for c in busy_cfgs]):
+    for n, res in pmap(job_single_reads, [(c,) for c in busy_cfgs] + [(dict(c, refuse_mode='cover'),) for c in busy_cfgs if c['refused']]):
         nsingle += n
         rep.add_many(res)
     novl = 0
